@@ -172,7 +172,8 @@ impl Extend<Command> for CommandList {
 /// assert_eq!(escape_argument("foo'bar\""), "foo\\'bar\\\"");
 /// ```
 pub fn escape_argument(argument: &str) -> Cow<'_, str> {
-    let needs_quotes = argument.contains(&[' ', '\t'][..]);
+    // Empty arguments and all bytes MPD treats as whitespace (<= 0x20) require quoting
+    let needs_quotes = argument.is_empty() || argument.bytes().any(|b| b <= b' ');
     let escape_count = argument.chars().filter(|c| should_escape(*c)).count();
 
     if escape_count == 0 && !needs_quotes {
